@@ -541,6 +541,9 @@ def _local_fresh(g: FuncInfo, arg):
             for t in n.targets:
                 if isinstance(t, ast.Name) and t.id == arg.id:
                     values.append(n.value)
+                elif isinstance(t, (ast.Tuple, ast.List)) and isinstance(n.value, (ast.Tuple, ast.List)) and len(t.elts) == len(n.value.elts) \
+                        and all(isinstance(e, ast.Name) for e in t.elts) and not any(isinstance(e, ast.Starred) for e in n.value.elts):
+                    values += [v for e, v in zip(t.elts, n.value.elts) if e.id == arg.id]      # ranges, chars = set(), set()
                 elif any(isinstance(x, ast.Name) and x.id == arg.id and isinstance(x.ctx, ast.Store) for x in ast.walk(t)):
                     return False
         elif isinstance(n, ast.AnnAssign) and isinstance(n.target, ast.Name) and n.target.id == arg.id:
@@ -1238,15 +1241,25 @@ def run(ctx, model: Model):
         if pm:
             mutators[f] = (pm, params)
     for f, (pm, params) in mutators.items():
-        public = not f.node.name.startswith("_") and f.outer is None
+        # a module-level function of a PRIVATE module (`pregex/core/_classutils.py`) is not public API: it is judged by its
+        # call sites, which are then looked for in every module that imports the private module (or the function)
+        private_module = f.module.name.split(".")[-1].startswith("_") and not f.module.name.split(".")[-1].startswith("__")
+        public = not f.node.name.startswith("_") and f.outer is None and not (private_module and f.cls is None)
         sites = []
         for g in funcs:
             for n in ast.walk(g.node):
                 if isinstance(n, ast.Call):
                     fn = n.func
                     nm = fn.id if isinstance(fn, ast.Name) else (fn.attr if isinstance(fn, ast.Attribute) else None)
-                    if nm == f.node.name and g.module is f.module:
+                    if nm != f.node.name and not (isinstance(fn, ast.Name) and g.module.from_imports.get(fn.id) == (f.module.name, f.node.name)):
+                        continue
+                    if g.module is f.module:
                         sites.append((g, n))
+                    elif f.cls is None and isinstance(fn, ast.Attribute) and isinstance(fn.value, ast.Name) and \
+                            g.module.imports.get(fn.value.id) == f.module.name:
+                        sites.append((g, n))          # _cu.reduce_chars(...)
+                    elif f.cls is None and isinstance(fn, ast.Name) and g.module.from_imports.get(fn.id) == (f.module.name, f.node.name):
+                        sites.append((g, n))          # from ._classutils import reduce_chars
         for p, nodes in pm.items():
             ps = [x for x in params if x != "self"]
             idx = ps.index(p) if p in ps else None
